@@ -27,6 +27,9 @@ def gen_episode(rng, long=False):
         ejected = ejected or ej == 1
         f = lambda v: v if v in ("none",) else (enc(v) if v != "-" else "-")
         ops.append("id req %s %s %s %d %d" % (f(rid), f(tr), key, blen, ej))
+    if rng.random() < 0.35:
+        # concurrent generation: identifiers handed out at the same instant must differ
+        ops.append("id burst %d %d" % (rng.choice([200, 2000, 5000] if not long else [2000, 20000, 100000]), rng.choice([2, 8, 16])))
     return ops
 
 
@@ -35,6 +38,10 @@ def oracle(ep, outs):
     w0 = C.op_lines(ep)[0].split()
     ron, ton = w0[2] == "1", w0[4] == "1"
     for line, o in zip(C.op_lines(ep)[1:], outs[1:]):
+        if line.startswith("id burst"):
+            if "dups=0" not in o:
+                fails.append("identifiers generated concurrently collide: %s -> %s" % (line, o))
+            continue
         if "DIFF" in o:
             fails.append("value seen by the backend differs from the value the client gets: %s -> %s" % (line, o))
         if "dups=0" not in o:
